@@ -88,7 +88,9 @@ CHECKS = {
                  'split_netloc is the authority split of the statement on all strings; for EVERY url value str() is the recomposition of '
                  'the raw accessors, with the two normalisations of __str__ explicit (an explicit default port is dropped and the '
                  "authority re-assembled from the raw parts; an empty path under an authority is printed '' when no query/fragment "
-                 'follows), and fails only where an authority accessor fails (C07_recompose*). PARTIAL: consistency of the stored '
+                 'follows), and fails only where an authority accessor fails (C07_recompose*); unsplit_result and make_netloc of '
+                 'yarl/_parse.py are re-translated from the source on every run and proved equal to the model (C07_source_*). '
+                 'PARTIAL: consistency of the stored '
                  'authority with the reported parts is an extracted predicate on the implementation (exhaustive delimiter strings, Unicode '
                  'aliases of scheme characters and digits). Known finding F17.'),
         "design_ref": "DESIGN.md section 7 C07",
